@@ -242,6 +242,17 @@ def gen_cmd_lists(rnd, quick):
         else:
             al = list(range(314))[:k]
         add("long-round-robin-%d" % k, [sym_cmd(al[i % k], rnd, fixed_off=(i * 37) & 4095) for i in range(L)])
+    # after a rebuild (32768 symbols) the codes that were never used sit in the last slots of the table:
+    # use them right after the first / second rebuild, least recently used last
+    textlike = [0x20, 0x65, 0x74, 0x61, 0x6f, 0x6e, 0x69, 0x73, 0x72, 0x68, 0x6c, 0x64, 256, 257, 258]
+    for nreb, pre in ((1, 33000), (2, 66000)):
+        body = [sym_cmd(rnd.choice(textlike), rnd, fixed_off=(i * 11) & 4095) for i in range(pre)]
+        rare = [s for s in range(314) if s not in textlike]
+        rnd.shuffle(rare)
+        tail = [sym_cmd(s, rnd, fixed_off=7) for s in rare[:rnd.choice([1, 5, 40])]]
+        tail += [sym_cmd(rnd.choice(textlike), rnd, fixed_off=3) for _ in range(2000)]
+        add("long-rebuild%d-then-unused" % nreb, body + tail)
+    add("long-uniform-all-codes", [sym_cmd(rnd.randrange(314), rnd, fixed_off=(i * 5) & 4095) for i in range(70000)])
     add("long-alternate-lits", [("L", 0x41 + (i & 1)) for i in range(L)])
     add("long-alternate-lit-copy", [sym_cmd((0x20, 300)[i & 1], rnd, fixed_off=1) for i in range(L)])
     add("long-single-symbol", [("L", 0x7a)] * 100000)
